@@ -31,13 +31,22 @@ LEVEL_TEXT = ("Lean proof: (i) keys_restored — for every list of operands with
               "to what it evaluates to in its own graph, provided shared keys denote equal values; (iii) "
               "names_determine_values — equal layer names mean the same operation on observably equal arguments (from "
               "C12); combined in compute_together_eq_alone and, with C14's repack_unpack, in compute_spec (dask.compute(*args) is "
-              "args with every collection replaced by the value it computes to alone). dask.compute on tuples of array/bag/delayed/dataframe programs "
-              "over near-identical inputs is compared with per-collection compute and NumPy/pandas on every run.")
-LEVEL_NOTE = ("inherits C12's trusted base (md5 injective, pickle atoms); the optimiser passes between merge and execution "
-              "are validated end to end (C09/C10/C43), the graphs are abstract (task = dependencies + function).")
+              "args with every collection replaced by the value it computes to alone); (iv) fused_keys_distinct — the name "
+              "default_fused_keys_renamer gives to a fused chain (sorted prefixes + full top key, cut to the extracted "
+              "limits with a digest of the FULL name) differs for chains whose top keys end in different tokens, for every "
+              "fixed-length digest that separates the joined names of the graph (digest_must_separate: the hypothesis "
+              "cannot be dropped — the 16-bit suffix of the original code violated it; repaired). dask.compute on tuples "
+              "of array / bag / delayed / dataframe programs over near-identical inputs (layout aliases, raw NumPy operands, "
+              "ufunc where=/out=, from_delayed, read_text, pipelines with long-named steps whose fused names are cut) is "
+              "compared with per-collection compute and NumPy/pandas on every run; the renamer is diffed at function level.")
+LEVEL_NOTE = ("inherits C12's trusted base (md5 separates the values compared, pickle atoms); the optimiser passes between "
+              "merge and execution are validated end to end (C09/C10/C43), the graphs are abstract (task = dependencies + "
+              "function); utils.key_split is not modelled (its results are supplied by the harness from the real function); "
+              "fuse_linear_task_spec itself is exercised on graphs of several chains, not modelled here (C09).")
 TECHNIQUE = "Lean 4 proof (induction on fuel / on the operand list, permutation + sortedness argument for the key order) + differential correspondence"
 ASSUMPTIONS = ["toolz.groupby returns groups in first-seen order with members in original order (diffed)",
-               "toolz.merge / HighLevelGraph.merge: later graphs win on shared keys"]
+               "toolz.merge / HighLevelGraph.merge: later graphs win on shared keys",
+               "md5 of the full joined name separates the fused chains of one graph (like tokens separate inputs)"]
 TRUSTED = ["reference evaluation of collection programs in harness/props/c13.py (NumPy / pandas / plain Python)"]
 
 
@@ -76,7 +85,10 @@ def _text_files(contents):
     import os
     import tempfile
     if not _TMP:
+        import atexit
+        import shutil
         _TMP.append(tempfile.mkdtemp(prefix="c13_readtext_"))
+        atexit.register(shutil.rmtree, _TMP[0], ignore_errors=True)
     paths = []
     for i, c in enumerate(contents):
         path = os.path.join(_TMP[0], f"part{i}-{hashlib.md5(c.encode()).hexdigest()[:10]}.txt")
